@@ -471,6 +471,41 @@ theorem fortran_solve_eq_python_solve (W : Wrapped σ V) (o : Opts) (start stop 
       exact fortran_solve_eq_python_solveList W o (periodRange s0 e0) w Inv G hu
         (by intro p hp; unfold periodRange at hp; simp at hp; obtain ⟨a, ha, rfl⟩ := hp; omega) herr h0
 
+/-- **Periods the wrapper's `solve` is not asked to solve keep their record**: whatever the engine returns and
+    whatever exception is raised, `status` / `iterations` change only at the positions handed over — in particular the
+    record an earlier call left there survives (the counterpart of `C05.later_periods_untouched`). -/
+theorem fortran_solve_frame (W : Wrapped σ V) (o : Opts) (ps : List Nat) (w : World σ) (j : Nat)
+    (hj : ∀ p ∈ ps, p ≠ j) (hps : ∀ p ∈ ps, p < W.ncols) :
+    (wSolve W o ps w).1.status[j]? = w.status[j]? ∧ (wSolve W o ps w).1.iters[j]? = w.iters[j]? := by
+  unfold wSolve
+  split
+  · exact ⟨rfl, rfl⟩
+  · split
+    · exact ⟨rfl, rfl⟩
+    · rename_i ec _
+      have hf := dispatchList_frame o W.ncols j
+        (ps.zip (Fortran.solve W (cfgOf o ec) (ps.map fun (p : Nat) => (p : Int) + 1) w.user).2)
+        (withUser w (Fortran.solve W (cfgOf o ec) (ps.map fun (p : Nat) => (p : Int) + 1) w.user).1)
+        (fun e he => hj e.1 (List.of_mem_zip he).1) (fun e he => hps e.1 (List.of_mem_zip he).1)
+      split <;> rename_i heq <;> rw [heq] at hf <;> exact hf
+
+/-- …and so do the periods *after* the one at which the zip loop raises: with `l1` the entries up to and including the
+    raising one, the entries `l2` behind it are never looked at, so a position that does not occur in `l1` keeps its
+    `status` / `iterations` — a later `solve()` that fails part-way does not reset what an earlier call recorded. -/
+theorem fortran_later_periods_untouched (o : Opts) (n : Nat) (l1 l2 : List (Nat × PeriodOut)) (w : World σ)
+    (e : WResult) (hraise : (dispatchList o n l1 w).2.1 = some e) (j : Nat)
+    (hj : ∀ x ∈ l1, x.1 ≠ j) (hn : ∀ x ∈ l1, x.1 < n) :
+    (dispatchList o n (l1 ++ l2) w).1.status[j]? = w.status[j]? ∧
+      (dispatchList o n (l1 ++ l2) w).1.iters[j]? = w.iters[j]? := by
+  rw [dispatchList_stops o n l2 l1 w e hraise]
+  exact dispatchList_frame o n j l1 w hj hn
+
+/-- A world that already carries records: the second period fails under `max_iter = 2`, `failures='raise'`; the
+    record of the third period ('.', 7) survives. -/
+example : (wSolveFull (toyW 0) { maxIter := 2 } (some (.pos 1)) none
+      ⟨(0, 0), [.solved, .solved, .solved], [5, 6, 7]⟩)
+    = (⟨(1, 2), [.solved, .failed, .solved], [5, 2, 7]⟩, .err .nonConvergence) := by decide
+
 /-- Two periods of the toy model through `solve`: both converge at pass 4 resp. 1. -/
 example : wSolveFull (toyW 0) {} none none toyWorld
     = ((Fsic.solve (toInterp (toyW 0)) {} 3 0 0 none none toyWorld).1,
